@@ -48,7 +48,7 @@ class Group:
 
 
 class Unit:
-    def __init__(self, path):
+    def __init__(self, path, text=None):
         self.path = path
         self.name = None
         self.source = None
@@ -60,7 +60,8 @@ class Unit:
         self.loops = {}         # (cname, n) -> text
         self.groups = {}
         self.configs = None
-        self.parse(open(path).read())
+        self.cxxdefs = []
+        self.parse(text if text is not None else open(path).read())
 
     def parse(self, text):
         sec = None
@@ -93,6 +94,8 @@ class Unit:
                 self.driver = attrs.get('driver')
                 if 'configs' in attrs:
                     self.configs = attrs['configs'].split(',')
+                if 'cxxdefs' in attrs:
+                    self.cxxdefs = [x for x in attrs['cxxdefs'].split(';') if x]
             elif kind == 'roots':
                 self.roots += [l.strip() for l in body.split('\n') if l.strip()]
             elif kind == 'abstract':
@@ -127,5 +130,23 @@ def load_all(dirpath):
     units = []
     for f in sorted(os.listdir(dirpath)):
         if f.endswith('.spec'):
-            units.append(Unit(os.path.join(dirpath, f)))
+            p = os.path.join(dirpath, f)
+            text = open(p).read()
+            m = re.search(r'^@params\s+(.*)$', text, re.M)
+            if not m:
+                units.append(Unit(p, text))
+                continue
+            # @params A=x,y B=u,v : one unit per combination, $A$ / $B$ substituted textually
+            text = text[:m.start()] + text[m.end():]
+            import itertools
+            keys, vals = [], []
+            for w in m.group(1).split():
+                k, _, v = w.partition('=')
+                keys.append(k)
+                vals.append(v.split(','))
+            for combo in itertools.product(*vals):
+                t = text
+                for k, v in zip(keys, combo):
+                    t = t.replace('$%s$' % k, v)
+                units.append(Unit(p, t))
     return units
